@@ -557,10 +557,10 @@ func (rc *rcase) judge(c *kit.Ctx, cname string, step int, lock []v1beta1.LockPa
 	if g.cyclic() {
 		c.Count("res_reconciles_on_cyclic_lock", 1)
 		if len(created)+len(updated) > 0 {
-			c.Violate("resolver-cycle-still-installs", cname, fmt.Sprintf("lock has a dependency cycle but the reconcile created %v / updated %v", created, updated), wit(nil))
+			violate(c, "resolver-cycle-still-installs", cname, fmt.Sprintf("lock has a dependency cycle but the reconcile created %v / updated %v", created, updated), wit(nil))
 		}
 		if rerr == nil && perr == nil {
-			c.Violate("resolver-cycle-not-reported", cname, "lock has a dependency cycle but the reconcile returned no error", wit(nil))
+			violate(c, "resolver-cycle-not-reported", cname, "lock has a dependency cycle but the reconcile returned no error", wit(nil))
 		} else {
 			c.Count("res_decisions_cycle_refused", 1)
 		}
@@ -572,7 +572,7 @@ func (rc *rcase) judge(c *kit.Ctx, cname string, step int, lock []v1beta1.LockPa
 		ps := parentsOf(lock, p.src)
 		tags := rc.tags[p.src]
 		if len(ps) == 0 {
-			c.Violate("resolver-created-undeclared-package", cname, fmt.Sprintf("created %s which no lock package depends on", joinPackage(p.src, p.ver)), wit(nil))
+			violate(c, "resolver-created-undeclared-package", cname, fmt.Sprintf("created %s which no lock package depends on", joinPackage(p.src, p.ver)), wit(nil))
 			continue
 		}
 		if _, in := inLock[p.src]; in {
@@ -607,22 +607,22 @@ func (rc *rcase) judge(c *kit.Ctx, cname string, step int, lock []v1beta1.LockPa
 		e := map[string]any{"created": joinPackage(p.src, p.ver), "acceptablePerConstraint": accAll}
 		switch {
 		case !anySat && anyDigest && len(ps) == 1:
-			c.Violate("resolver-install-digest-mismatch", cname, fmt.Sprintf("dependency pinned to %s but %s was installed", ps[0], joinPackage(p.src, p.ver)), wit(e))
+			violate(c, "resolver-install-digest-mismatch", cname, fmt.Sprintf("dependency pinned to %s but %s was installed", ps[0], joinPackage(p.src, p.ver)), wit(e))
 		case !anySat:
-			c.Violate("resolver-install-violates-constraint", cname, fmt.Sprintf("installed %s which satisfies none of the declared constraints %q", joinPackage(p.src, p.ver), ps), wit(e))
+			violate(c, "resolver-install-violates-constraint", cname, fmt.Sprintf("installed %s which satisfies none of the declared constraints %q", joinPackage(p.src, p.ver), ps), wit(e))
 		default:
-			c.Violate("resolver-install-not-highest", cname, fmt.Sprintf("installed %s but a higher satisfying tag exists (constraints %q, acceptable %v)", joinPackage(p.src, p.ver), ps, accAll), wit(e))
+			violate(c, "resolver-install-not-highest", cname, fmt.Sprintf("installed %s but a higher satisfying tag exists (constraints %q, acceptable %v)", joinPackage(p.src, p.ver), ps, accAll), wit(e))
 		}
 	}
 
 	for _, k := range updated {
 		p, old := after[k], before[k]
 		if p.src != old.src {
-			c.Violate("resolver-update-changed-source", cname, fmt.Sprintf("package %s source changed from %s to %s", k, old.src, p.src), wit(nil))
+			violate(c, "resolver-update-changed-source", cname, fmt.Sprintf("package %s source changed from %s to %s", k, old.src, p.src), wit(nil))
 			continue
 		}
 		if rc.mode == 0 {
-			c.Violate("resolver-update-with-upgrades-disabled", cname, fmt.Sprintf("package %s moved from %q to %q although dependency upgrades are disabled", k, old.ver, p.ver), wit(nil))
+			violate(c, "resolver-update-with-upgrades-disabled", cname, fmt.Sprintf("package %s moved from %q to %q although dependency upgrades are disabled", k, old.ver, p.ver), wit(nil))
 			continue
 		}
 		ps := parentsOf(lock, p.src)
@@ -652,16 +652,16 @@ func (rc *rcase) judge(c *kit.Ctx, cname string, step int, lock []v1beta1.LockPa
 		cmp, cok := cmpVer(p.ver, old.ver)
 		switch {
 		case !allSat:
-			c.Violate("resolver-upgrade-violates-parent-constraint", cname, fmt.Sprintf("%s moved from %q to %q which does not satisfy every parent constraint %q", p.src, old.ver, p.ver, ps), wit(e))
+			violate(c, "resolver-upgrade-violates-parent-constraint", cname, fmt.Sprintf("%s moved from %q to %q which does not satisfy every parent constraint %q", p.src, old.ver, p.ver, ps), wit(e))
 		case !curOK || !cok:
 			// the installed version was not a semantic version: only safety is judged
 			c.Count("res_decisions_update_from_non_semver", 1)
 		case cmp < 0 && rc.mode != 2:
-			c.Violate("resolver-downgrade-without-permission", cname, fmt.Sprintf("%s moved down from %q to %q although downgrades are not allowed", p.src, old.ver, p.ver), wit(e))
+			violate(c, "resolver-downgrade-without-permission", cname, fmt.Sprintf("%s moved down from %q to %q although downgrades are not allowed", p.src, old.ver, p.ver), wit(e))
 		case cmp < 0:
-			c.Violate("resolver-downgrade-not-highest-older", cname, fmt.Sprintf("%s moved down from %q to %q; reference target %v", p.src, old.ver, p.ver, setList(acc)), wit(e))
+			violate(c, "resolver-downgrade-not-highest-older", cname, fmt.Sprintf("%s moved down from %q to %q; reference target %v", p.src, old.ver, p.ver, setList(acc)), wit(e))
 		default:
-			c.Violate("resolver-upgrade-not-lowest-not-older", cname, fmt.Sprintf("%s moved from %q to %q; the lowest not-older version satisfying %q is %v", p.src, old.ver, p.ver, ps, setList(acc)), wit(e))
+			violate(c, "resolver-upgrade-not-lowest-not-older", cname, fmt.Sprintf("%s moved from %q to %q; the lowest not-older version satisfying %q is %v", p.src, old.ver, p.ver, ps, setList(acc)), wit(e))
 		}
 	}
 
@@ -715,7 +715,7 @@ func (rc *rcase) judge(c *kit.Ctx, cname string, step int, lock []v1beta1.LockPa
 			} else if len(uniq(kinds)) == 1 {
 				key = "resolver-upgrade-not-applied"
 			}
-			c.Violate(key, cname, fmt.Sprintf("reconcile reported success and changed nothing, yet every open dependency problem %v has a qualifying version", kinds), wit(nil))
+			violate(c, key, cname, fmt.Sprintf("reconcile reported success and changed nothing, yet every open dependency problem %v has a qualifying version", kinds), wit(nil))
 		}
 		if len(kinds) == 0 {
 			c.Count("res_decisions_nothing_to_do", 1)
